@@ -5,7 +5,7 @@ cd /verif
 declare -A CHECKS=(
  [C01]="C01 C02" [C02]="C02 C01" [C03]="C03 C13 C07" [C04]="C04 C09 C20" [C05]="C05 C06 C19" [C06]="C09 C06 C04" [C07]="C07"
  [C08]="C08 C09" [C09]="C09" [C10]="C10" [C11]="C11 C19" [C12]="C12 C11 C13" [C13]="C13" [C14]="C14 C11" [C15]="C15"
- [C16]="C16 C03" [C05-3]="C05 C09" [C07-3]="C07 C13" [C16-3]="C16 C13 C03" [C06-3]="C06 C07" [C01-3]="C01 C11" [C02-8]="C02 C08" [C04-8]="C04" [C05-8]="C05" [C06-8]="C06 C05" [C08-8]="C08" [C09-8]="C09" [C13-8]="C13" [C16-8]="C16" [C18-8]="C18" [C20-8]="C20" [C01-7]="C01 C02" [C03-7]="C03 C11 C19" [C07-7]="C07" [C10-7]="C10 C03 C16" [C11-7]="C11" [C12-7]="C12 C17" [C14-7]="C14" [C15-7]="C15" [C17-7]="C17 C12" [C19-7]="C19" [C02-7]="C02 C01" [C04-7]="C04 C01" [C05-7]="C05" [C06-7]="C06 C07 C17" [C08-7]="C08" [C09-7]="C09" [C13-7]="C13 C08" [C16-7]="C16 C13 C03" [C18-7]="C18" [C20-7]="C20" [C01-6]="C01 C17" [C03-6]="C03 C08" [C07-6]="C07 C17" [C10-6]="C10 C07" [C11-6]="C11" [C12-6]="C12 C17" [C14-6]="C14 C11" [C15-6]="C15" [C17-6]="C17" [C19-6]="C19 C11" [C02-6]="C02 C18" [C04-6]="C04" [C05-6]="C05 C06" [C06-6]="C06 C05" [C08-6]="C08" [C09-6]="C09" [C13-6]="C13" [C16-6]="C16 C03" [C18-6]="C18" [C20-6]="C20 C05" [C01-5]="C01 C07" [C03-5]="C03 C13" [C07-5]="C07" [C10-5]="C10 C19" [C11-5]="C11" [C12-5]="C12 C17" [C14-5]="C14" [C15-5]="C15" [C17-5]="C17" [C19-5]="C19" [C02-5]="C02 C15" [C04-5]="C04 C15" [C05-5]="C05 C18" [C06-5]="C06 C18" [C08-5]="C08" [C09-5]="C09" [C13-5]="C13" [C16-5]="C16" [C18-5]="C18" [C20-5]="C20 C05" [C01-4]="C01 C09" [C02-4]="C02 C06" [C03-4]="C03 C07" [C04-4]="C04 C05" [C05-4]="C05" [C06-4]="C06" [C07-4]="C07" [C08-4]="C08" [C09-4]="C09" [C10-4]="C10" [C11-4]="C11" [C12-4]="C12" [C13-4]="C13 C03" [C14-4]="C14 C01" [C15-4]="C15" [C16-4]="C16 C06" [C17-4]="C17" [C18-4]="C18" [C19-4]="C19 C05" [C20-4]="C20" [C10-3]="C10 C13 C16" [C11-3]="C11 C07" [C12-3]="C12 C17" [C17]="C17 C07" [C18]="C18" [C19]="C19" [C20]="C20 C19"
+ [C16]="C16 C03" [C05-3]="C05 C09" [C07-3]="C07 C13" [C16-3]="C16 C13 C03" [C06-3]="C06 C07" [C01-3]="C01 C11" [C01-8]="C01 C04" [C03-8]="C03 C16" [C07-8]="C07 C17" [C10-8]="C10 C16" [C11-8]="C11" [C12-8]="C12 C03" [C14-8]="C14" [C15-8]="C15" [C17-8]="C17" [C19-8]="C19" [C02-8]="C02 C08" [C04-8]="C04" [C05-8]="C05" [C06-8]="C06 C05" [C08-8]="C08" [C09-8]="C09" [C13-8]="C13" [C16-8]="C16" [C18-8]="C18" [C20-8]="C20" [C01-7]="C01 C02" [C03-7]="C03 C11 C19" [C07-7]="C07" [C10-7]="C10 C03 C16" [C11-7]="C11" [C12-7]="C12 C17" [C14-7]="C14" [C15-7]="C15" [C17-7]="C17 C12" [C19-7]="C19" [C02-7]="C02 C01" [C04-7]="C04 C01" [C05-7]="C05" [C06-7]="C06 C07 C17" [C08-7]="C08" [C09-7]="C09" [C13-7]="C13 C08" [C16-7]="C16 C13 C03" [C18-7]="C18" [C20-7]="C20" [C01-6]="C01 C17" [C03-6]="C03 C08" [C07-6]="C07 C17" [C10-6]="C10 C07" [C11-6]="C11" [C12-6]="C12 C17" [C14-6]="C14 C11" [C15-6]="C15" [C17-6]="C17" [C19-6]="C19 C11" [C02-6]="C02 C18" [C04-6]="C04" [C05-6]="C05 C06" [C06-6]="C06 C05" [C08-6]="C08" [C09-6]="C09" [C13-6]="C13" [C16-6]="C16 C03" [C18-6]="C18" [C20-6]="C20 C05" [C01-5]="C01 C07" [C03-5]="C03 C13" [C07-5]="C07" [C10-5]="C10 C19" [C11-5]="C11" [C12-5]="C12 C17" [C14-5]="C14" [C15-5]="C15" [C17-5]="C17" [C19-5]="C19" [C02-5]="C02 C15" [C04-5]="C04 C15" [C05-5]="C05 C18" [C06-5]="C06 C18" [C08-5]="C08" [C09-5]="C09" [C13-5]="C13" [C16-5]="C16" [C18-5]="C18" [C20-5]="C20 C05" [C01-4]="C01 C09" [C02-4]="C02 C06" [C03-4]="C03 C07" [C04-4]="C04 C05" [C05-4]="C05" [C06-4]="C06" [C07-4]="C07" [C08-4]="C08" [C09-4]="C09" [C10-4]="C10" [C11-4]="C11" [C12-4]="C12" [C13-4]="C13 C03" [C14-4]="C14 C01" [C15-4]="C15" [C16-4]="C16 C06" [C17-4]="C17" [C18-4]="C18" [C19-4]="C19 C05" [C20-4]="C20" [C10-3]="C10 C13 C16" [C11-3]="C11 C07" [C12-3]="C12 C17" [C17]="C17 C07" [C18]="C18" [C19]="C19" [C20]="C20 C19"
 )
 ids="$@"; [ -z "$ids" ] && ids=$(ls seeded | grep '^C')
 for id in $ids; do
